@@ -26,8 +26,11 @@ ASSUMPTIONS = [
     "tolerance 1e-9*(1+|x|) for exact rewrites and 2e-5 for fusestatic (the merged inertia goes through the compiler's Jacobi "
     "eigensolver whose stopping rule leaves a ~1.4e-6 rad error in the principal axes, see C35); quaternions are compared up "
     "to sign",
-    "fusestatic trajectories are compared with tolerance 2e-5 + 20 x the deviation of a twin run of A whose initial velocity is "
-    "scaled by 1+1e-6 (the system's own amplification of a perturbation of the size the eigen-decomposition injects)",
+    "trajectories are compared with tolerance tol + 20 x the deviation of a twin run of A whose initial velocity is scaled by "
+    "1+1e-13 (1+1e-6 for fusestatic): the system's own amplification of a perturbation of the size the rewrite injects "
+    "(rounding of the re-spelled numbers; the eigen-decomposition of the merged inertia)",
+    "fusestatic models carry no refsite: the rotational site/refsite length depends on how the orientation is split between "
+    "body and site (known finding C27-refsite-rotation-quaternion-order), which fusing changes",
     "a trajectory is abandoned (counted unstable_skipped) when either model reaches |qacc|>1e7 or |qvel|>1e4: the generated "
     "system is then numerically unstable for the chosen integrator/timestep and rounding differences are amplified without bound",
     "trajectories use <flag constraint='disable'/> (no limits, friction loss, equality or contact forces): the comparison is "
@@ -88,7 +91,9 @@ def base_xml(mseed, kind, small=False, nofree=False):
         prof = "rich"
         over.update(floor=True, contact_bits=0.5)
     if kind == "fusestatic":
-        over.update(fixed_child=0.45, static_geoms=0.8, sensors=0)
+        # refsite=0: the rotational length of a site/refsite transmission depends on how the site orientation is split between
+        # body and site (known finding C27-refsite-rotation-quaternion-order), which fusing changes
+        over.update(fixed_child=0.45, static_geoms=0.8, sensors=0, refsite=0.0)
     if small:
         over.update(nbody=(1, 4), ntree=(1, 2))
     if nofree:
@@ -314,7 +319,7 @@ def compare_references(P, mA, mB, kind, wit):
         if k in rb and ra[k] != rb[k]:
             nbad += 1
             if nbad <= 3:
-                P.violation("reference-points-to-other-object:%s:%s" % (kind, k.split(":")[0]),
+                P.violation("reference-points-to-other-object:%s:%s" % (kind.split("-")[0], k.split(":")[0]),
                             dict(wit, reference=k, a=list(ra[k]), b=list(rb[k])))
     P.count("references_compared", len(ra))
     return nbad
@@ -348,17 +353,17 @@ def world_obs(m, d):
     return o
 
 
-def compare_traj(P, L, mA, mB, tol, kind, wit, seed, sens=False):
+def compare_traj(P, L, mA, mB, tol, kind, wit, seed, sens=1e-13):
     dA, dB = mA.make_data(), mB.make_data()
     init_state(mA, dA, seed)
     init_state(mB, dB, seed)
     dP = None
     if sens:
-        # twin of A whose initial velocity is scaled by (1 + 1e-6): measures how much the system amplifies a perturbation of
-        # the size that the merged-inertia eigen-decomposition injects
+        # twin of A whose initial velocity is scaled by (1 + sens): measures how much the system itself amplifies a
+        # perturbation of the size that the rewrite injects (rounding: 1e-13; merged-inertia eigen-decomposition: 1e-6)
         dP = mA.make_data()
         init_state(mA, dP, seed)
-        dP["qvel"][:] = dP["qvel"] * (1 + 1e-6)
+        dP["qvel"][:] = dP["qvel"] * (1 + sens)
     worst = 0.0
     try:
         step = 0
@@ -382,7 +387,7 @@ def compare_traj(P, L, mA, mB, tol, kind, wit, seed, sens=False):
                 if not np.isfinite(amp):
                     P.count("unstable_skipped")
                     return worst
-                P.note_max("fusestatic_perturbation_growth", amp / 1e-6)
+                P.note_max("perturbation_growth", amp / sens)
             seen = set()
             for k in oa:
                 if k not in ob:
@@ -540,6 +545,14 @@ def run_setconst(P, L, c):
         worst = max(worst, err)
         if not ok:
             P.violation("setConst-differs-from-recompile:" + fld, dict(wit, field=fld, a=a, b=b, err=err))
+    # compile itself runs mj_setConst, so a field that BOTH leave stale would agree: the subtree masses are also summed here
+    sub = mA["body_mass"].copy()
+    par_ = mA["body_parentid"]
+    for i in range(mA.n("nbody") - 1, 0, -1):
+        sub[par_[i]] += sub[i]
+    ok, err = close(mA["body_subtreemass"], sub, 1e-12)
+    if not ok:
+        P.violation("setConst-subtreemass-not-sum-of-masses", dict(wit, a=mA["body_subtreemass"], want=sub, err=err))
     sa = np.frombuffer(mA.stat_bytes(), dtype=np.float64)[:7]
     sb = np.frombuffer(mB.stat_bytes(), dtype=np.float64)[:7]
     ok, err = close(sa, sb, 1e-9)
@@ -615,7 +628,7 @@ def worker(c):
         P.count("downstream_skipped_after_wrong_reference")
     else:
         ncmp = compare_models(P, mA, mB, tol, label, wit)
-        compare_traj(P, L, mA, mB, tol, label, wit, c["rseed"], sens=(kind == "fusestatic"))
+        compare_traj(P, L, mA, mB, tol, label, wit, c["rseed"], sens=(1e-6 if kind == "fusestatic" else 1e-13))
     for k, v in pair["counts"].items():
         P.count(k, v)
     if napp:
